@@ -10,6 +10,7 @@ import (
 	v2 "github.com/deadsy/sdfx/vec/v2"
 	v3 "github.com/deadsy/sdfx/vec/v3"
 	"github.com/deadsy/sdfx/vec/v3i"
+	"math"
 )
 
 // catDegenerateBoxMesh: a closed box plus collapsed triangles (two identical
@@ -44,6 +45,17 @@ func manySpheres(n int, lw *leafWrapper) []sdf.SDF3 {
 		out = append(out, lw.w3(catOffsetSphere(0.9+0.1*float64(i%3), v3.Vec{X: float64(i%3) * 3, Y: float64((i/3)%3) * 3, Z: float64(i/9) * 3})))
 	}
 	return out
+}
+
+// wavyRing: a closed outline of n vertices (a circle of radius 10 with 17 lobes).
+func wavyRing(n int) []v2.Vec {
+	vs := make([]v2.Vec, n)
+	for i := range vs {
+		a := 2 * math.Pi * float64(i) / float64(n)
+		r := 10 + 1.5*math.Sin(17*a)
+		vs[i] = v2.Vec{X: r * math.Cos(a), Y: r * math.Sin(a)}
+	}
+	return vs
 }
 
 func init() {
@@ -113,6 +125,21 @@ func init() {
 	register(catEntry{Name: "x-voxel-of-voxel", Ctors: []string{"sdf.NewVoxelSDF3"},
 		Build3: func(lw *leafWrapper) sdf.SDF3 {
 			return sdf.NewVoxelSDF3(sdf.NewVoxelSDF3(lw.w3(must3(sdf.Sphere3D(3))), 8, nil), 6, nil)
+		}})
+	// polygons with thousands of segments (imported outlines, sampled curves): spatial
+	// indexes behave differently at this size
+	register(catEntry{Name: "x-polygon2d-3000", Ctors: []string{"sdf.Polygon2D"},
+		Build2: func(lw *leafWrapper) sdf.SDF2 { return must2(sdf.Polygon2D(wavyRing(3000))) }})
+	register(catEntry{Name: "x-polygon2d-6000-extrude", Ctors: []string{"sdf.Polygon2D", "sdf.Extrude3D"},
+		Build3: func(lw *leafWrapper) sdf.SDF3 { return sdf.Extrude3D(lw.w2(must2(sdf.Polygon2D(wavyRing(6000)))), 4) }})
+	register(catEntry{Name: "x-mesh2d-1500", Ctors: []string{"sdf.Mesh2D"},
+		Build2: func(lw *leafWrapper) sdf.SDF2 {
+			vs := wavyRing(1500)
+			var ls []*sdf.Line2
+			for i := range vs {
+				ls = append(ls, &sdf.Line2{vs[i], vs[(i+1)%len(vs)]})
+			}
+			return must2(sdf.Mesh2D(ls))
 		}})
 	register(catEntry{Name: "x-polygon2d-collinear", Ctors: []string{"sdf.Polygon2D"},
 		Build2: func(lw *leafWrapper) sdf.SDF2 {
